@@ -400,6 +400,21 @@ func HarnessC07a() {
 		}
 		return c
 	}
+	// known finding: with the two top nodes starting at different keys, the diff walks one side down
+	// to its first entry before expanding the other, through nodes common to both versions: up to one
+	// leftmost spine and the search path of the differing key (<= 2 common nodes per level).
+	hmax := uint64(rOld.Height)
+	if uint64(rNew.Height) > hmax {
+		hmax = uint64(rNew.Height)
+	}
+	spineBudget := 2 * hmax * uint64(verifBoundOr("K", 1))
+	if verifBound("MODE") != 1 {
+		spineBudget = 0 // the class is stated for a version and its descendant only
+	}
+	withinSpines := func(log []string) bool { return distinct(log) <= D+spineBudget }
+	verifObserve("C15.D", D)
+	verifObserve("C15.difflinks-distinct-reads", distinct(difflinksLoads))
+	verifClass("C15.common-spine-nodes-are-read", withinSpines(difflinksLoads))
 	verifAssert("C15.difflinks-reads", distinct(difflinksLoads) <= 2*D+2)
 	l0, l0n = len(st.loadLog), len(stNew.loadLog)
 	err = nw.DiffIter(vctx, old, func(added, removed bool, key, av, rv interface{}) (bool, error) { return true, nil })
@@ -408,6 +423,7 @@ func HarnessC07a() {
 	if stNew != st {
 		diffiterLoads = append(diffiterLoads, stNew.loadLog[l0n:]...)
 	}
+	verifClass("C15.common-spine-nodes-are-read", withinSpines(diffiterLoads))
 	verifAssert("C15.diffiter-reads", distinct(diffiterLoads) <= 2*D+2)
 	sameVersion := false
 	if rOld.Link != nil && rNew.Link != nil {
